@@ -1,10 +1,11 @@
 (* Extraction of the executable model and acceptors to OCaml (ExtrOcamlBasic only). *)
 From Coq Require Import ExtrOcamlBasic.
-From W Require Import model.Base model.Fnv model.Utf8 model.Sanitize model.WalKey model.Engine model.EngineCfg spec.Queue.
+From W Require Import model.Base model.Fnv model.Utf8 model.Sanitize model.WalKey model.Engine model.EngineCfg spec.Queue spec.Crash.
 Extraction "model.ml"
   N.add N.mul N.div N.modulo N.eqb N.ltb N.leb N.sub N.of_nat N.to_nat
   checksum64 utf8_encode utf8_decode
   sanitize sanitize_v0 safe_component
   wal_key parse_wal_key
   real_cfg small_cfg init step unmodelled any_unmodelled
-  c01_ok c03_ok c15_ok c02b_ok c02c_ok c06alo_ok.
+  c01_ok c03_ok c15_ok c02b_ok c02c_ok c06alo_ok
+  c07_ok c08_ok c09_strict_ok c09_alo_ok batch_crash stream_of.
